@@ -175,9 +175,93 @@ def run_case(case):
     return out
 
 
+def setup_spec(case):
+    spec = make_spec(case)
+    if case.get('unit'):
+        spec.unit = case['unit']
+    if case.get('period') is not None:
+        p = case['period']
+        spec.set_sampling_period(p[0], p[1], p[2])
+    for v in case.get('vars', []):
+        spec.declare_var(v, 'float')
+    for (cn, ct, cv) in case.get('consts', []):
+        spec.declare_const(cn, ct, cv)
+    for v, io in sorted(case.get('io', {}).items()):
+        spec.set_var_io_type(v, io)
+    for s in case.get('subspecs', []):
+        spec.add_sub_spec(s)
+    spec.spec = case['spec']
+    spec.parse()
+    if case.get('pastify'):
+        spec.pastify()
+    return spec
+
+
+def do_call(spec, case, call):
+    kind = call[0]
+    dense = case['monitor'].startswith('dense')
+    if kind == 'evaluate':
+        args = copy.deepcopy(call[1])
+        keep = copy.deepcopy(args)
+        r = spec.evaluate(*args) if dense else spec.evaluate(args)
+        return {'status': 'ok', 'value': canon_val(r), 'args_unchanged': args == keep}
+    if kind == 'update':
+        if dense:
+            args = copy.deepcopy(call[1])
+            keep = copy.deepcopy(args)
+            r = spec.update(*args)
+            return {'status': 'ok', 'value': canon_val(r), 'args_unchanged': args == keep}
+        data = [[k, v] for k, v in call[2]]
+        keep = copy.deepcopy(data)
+        r = spec.update(call[1], data)
+        return {'status': 'ok', 'value': canon_val(r), 'args_unchanged': data == keep}
+    if kind == 'reset':
+        spec.reset()
+        return {'status': 'ok', 'value': None}
+    if kind == 'get_value':
+        return {'status': 'ok', 'value': canon_val(spec.get_value(call[1]))}
+    if kind == 'counter':
+        return {'status': 'ok', 'value': canon_val(spec.sampling_violation_counter)}
+    if kind == 'print':
+        return {'status': 'ok', 'value': spec.spec_print()}
+    raise ValueError('unknown call ' + kind)
+
+
+def run_multi(mcase):
+    """several specification objects, calls interleaved by a schedule [(object, call index)...]"""
+    objs, out = [], {'setup': [], 'calls': []}
+    for case in mcase['objects']:
+        try:
+            objs.append(setup_spec(case))
+            out['setup'].append({'status': 'ok'})
+        except Exception as exc:  # noqa
+            objs.append(None)
+            out['setup'].append(classify(exc))
+    for (oi, ci) in mcase['schedule']:
+        case = mcase['objects'][oi]
+        if objs[oi] is None:
+            out['calls'].append({'status': 'skipped'})
+            continue
+        try:
+            out['calls'].append(do_call(objs[oi], case, case['calls'][ci]))
+        except Exception as exc:  # noqa
+            out['calls'].append(classify(exc))
+    return out
+
+
 if __name__ == '__main__':
     import json
-    case = json.load(open(sys.argv[1])) if len(sys.argv) > 1 else json.load(sys.stdin)
-    if 'case' in case:
-        case = case['case']
-    print(json.dumps(run_case(case), indent=1))
+    if len(sys.argv) > 2 and sys.argv[1] == '--batch':
+        # batch mode for the hash-seed runs: a JSON list of cases in, a JSON list of results out
+        import io, contextlib
+        cases = json.load(open(sys.argv[2]))
+        res = []
+        for c in cases:
+            with contextlib.redirect_stdout(io.StringIO()):
+                res.append(run_multi(c) if 'objects' in c else run_case(c))
+        json.dump(res, sys.stdout)
+    else:
+        case = json.load(open(sys.argv[1])) if len(sys.argv) > 1 else json.load(sys.stdin)
+        if 'case' in case:
+            case = case['case']
+        print(json.dumps(run_case(case), indent=1))
